@@ -169,7 +169,7 @@ Definition check (c : xcase) : N :=
                       && vars_seen_ok (x_varsseen c) (request_vars FUEL (x_schema c) (x_doc c) (x_op c) (x_inputs c))
                       && match st_missing s with [] => true | _ => false end in
     match x_kind c with
-    | 1 => if same_data then 0 else bad                                    (* C01 *)
+    | 1 => if same_data && same_calls then 0 else bad                      (* C01: response, and arguments delivered to resolvers *)
     | 4 => if same_data then 0 else bad                                    (* C04 *)
     | 5 => if same_calls && same_data then 0 else bad                      (* C05: arguments seen by resolvers *)
     | 20 => if same_calls then 0 else bad                                  (* C20 *)
